@@ -340,11 +340,23 @@ Section Meta.
   (* hills_energy_sum_here of the well-tempered branch: the same sum as calc_energy *)
   Definition wt_energy_here (c : cfg) (s : state) (x : list value) : T := calc_energy c s x.
 
+  (* wrap_to_edge: periodic dimensions are wrapped, the others brought back to the closest edge bin *)
+  Fixpoint edgeix (vs : list var_cfg) (g : list bound) (ix : list Z) : list Z :=
+    match vs, g, ix with
+    | v :: vs', b :: g', i :: ix' =>
+        (if v_gperiodic v then Z.rem (Z.rem i (b_nx b) + b_nx b) (b_nx b)
+         else if i <? 0 then 0 else if i >=? b_nx b then b_nx b - 1 else i) :: edgeix vs' g' ix'
+    | _, _, _ => []
+    end.
+  (* the bin of the target distribution of ebMeta at x *)
+  Definition tbins (c : cfg) (x : list value) : list Z :=
+    edgeix (c_vars c) (c_geom0 c) (cbins (c_vars c) (c_geom0 c) x).
+
   (* ebMeta: hills_scale *= 1/target_dist(current bin), ramped in during the first ebmeta_equil_steps steps
      (hills_lambda = (equil - step)/equil; hills_scale = lambda + (1-lambda)*hills_scale) *)
   Definition eb_scale (c : cfg) (i : step_in) : T :=
     if c_eb c then
-      let r := nmul O (n1 O) (ndiv O (n1 O) (c_eb_target c (cbins (c_vars c) (c_geom0 c) (i_x i)))) in
+      let r := nmul O (n1 O) (ndiv O (n1 O) (c_eb_target c (tbins c (i_x i)))) in
       if i_it i <? c_eb_equil c then
         let lam := ndiv O (nofZ O (c_eb_equil c - i_it i)) (nofZ O (c_eb_equil c)) in
         nadd O lam (nmul O (nsub O (n1 O) lam) r)
